@@ -188,6 +188,17 @@ def gen_hilbert(tier, rng):
         for _ in range(40):
             co = [rng.below(1 << L) for _ in range(3)]
             cases.append("hbox %d %s" % (H, " ".join(map(str, co))))
+    # deep trees (indices beyond 2^31): coordinate <-> index at the leaf level, child codes, leaf-level neighbour lists
+    for H in ((9, 12, 13, 17, 19) if tier == "quick" else (8, 9, 10, 11, 12, 13, 14, 15, 16, 17, 18, 19)):
+        L = H - 1
+        for _ in range(30 if tier == "quick" else 400):
+            co = [rng.choice([rng.below(1 << L), (1 << L) - 1, (1 << (L - 1)) + rng.below(3) - 1]) for _ in range(3)]
+            cases.append("hbox %d %s" % (H, " ".join(map(str, co))))
+            i = rng.below(1 << (3 * L))
+            cases.append("hunbox %d %d" % (H, i))
+            cases.append("hccode %d %d" % (H, i))
+            if rng.below(3) == 0:
+                cases.append("hnlist %d %d %d %d %d" % (H, rng.below(2), L, rng.below(2), i))
     return cases
 
 
